@@ -362,6 +362,8 @@ var whereAtoms = []string{
 	`m["x"].Type.Size < m["y"].Type.Size`,
 	// an interface that exists only under the build tag the engines are configured with (resolved while loading)
 	`m["y"].Type.Implements("chk.TaggedIface")`, `!m["x"].Type.HasMethod("chk.TaggedIface.Tag")`,
+	// an interface the rules file declares itself: its qualified name is <the package Load checks rules files as>.<name>
+	`m["x"].Type.Implements("gorules.localNamed")`, `!m["y"].Type.HasMethod("gorules.localNamed.String")`,
 }
 
 // Comparisons with the constant on the LEFT. The loader accepts the commutative ones; what it does with the ordering
@@ -390,7 +392,7 @@ func (g *gen) lhsCmp(ordering bool) string {
 // lhsRulesFile: rules whose filters compare with the constant on the left, alone and inside && / || / !.
 func (g *gen) lhsRulesFile(id int, ordering bool) string {
 	var sb strings.Builder
-	sb.WriteString("package gorules\n\nimport \"github.com/quasilyte/go-ruleguard/dsl\"\n\nconst limitC = 32\n\n")
+	sb.WriteString("package " + pkgClause(id+3) + "\n\nimport \"github.com/quasilyte/go-ruleguard/dsl\"\n\nconst limitC = 32\n\n")
 	ng := 1 + g.rng.Intn(2)
 	pats := []string{"f($x, $y)", "f($y, $x)", "g($x)", "h($x, $y, $*_)"}
 	for gi := 0; gi < ng; gi++ {
@@ -434,9 +436,16 @@ func (g *gen) where(depth int) string {
 
 func (g *gen) whereParen(depth int) string { return "(" + g.where(depth) + ")" }
 
+// The package clause of a rules file is the author's business: Engine.Load type-checks every rules file as package
+// "gorules" whatever it declares, and the custom functions of a file (Filter(fn) / Do(fn)) are compiled, registered and
+// looked up under that one name. Every generated file declares the next name of this pool.
+var pkgClauses = []string{"gorules", "lintrules", "rules", "gorules_test", "p", "ir", "dsl", "quasigo"}
+
+func pkgClause(id int) string { return pkgClauses[id%len(pkgClauses)] }
+
 func (g *gen) rulesFile(id int) string {
 	var sb strings.Builder
-	sb.WriteString("package gorules\n\nimport (\n\t\"github.com/quasilyte/go-ruleguard/dsl\"\n")
+	sb.WriteString("package " + pkgClause(id) + "\n\nimport (\n\t\"github.com/quasilyte/go-ruleguard/dsl\"\n")
 	useStrings := g.rng.Intn(2) == 0
 	if useStrings {
 		sb.WriteString("\t\"strings\"\n")
@@ -452,6 +461,11 @@ func (g *gen) rulesFile(id int) string {
 		sb.WriteString("const limit = 100\n\nvar tag = \"t\"\n\n")
 	}
 	sb.WriteString("const limitC = 40\n\n")
+	// a type of the rules file's own, named in filters
+	sb.WriteString("type localNamed interface{ String() string }\n\n")
+	// handlers: the report / the suggestion is computed by a custom function
+	sb.WriteString("func reportDo(ctx *dsl.DoContext) {\n\tctx.SetReport(\"do: \" + ctx.Var(\"x\").Text() + \" / \" + ctx.Var(\"y\").Text())\n}\n\n")
+	sb.WriteString("func suggestDo(ctx *dsl.DoContext) {\n\tctx.SetSuggest(\"k(\" + ctx.Var(\"y\").Text() + \", \" + ctx.Var(\"x\").Text() + \")\")\n}\n\n")
 	ng := 1 + g.rng.Intn(4)
 	pats := []string{"f($x, $y)", "$x + $y", "h($x, $y, $*_)", "$x == $y", "if $x != $y { $*_ }", "$x.m($y)", "f($y, $x)", "$x - $y", "$x * $y"}
 	for gi := 0; gi < ng; gi++ {
@@ -504,6 +518,14 @@ func (g *gen) rulesFile(id int) string {
 		fmt.Fprintf(&sb, "\tm.Match(`g($x)`).Where(isNum(m[\"x\"]) && m[\"x\"].Const).Report(`num %d`)\n", gi)
 		sb.WriteString("}\n\n")
 	}
+	// custom functions in every position they can take: a Filter() alone and inside && / || / !, Do() with and without Where()
+	fmt.Fprintf(&sb, "func custom%d(m dsl.Matcher) {\n", id)
+	fmt.Fprintf(&sb, "\tm.Match(`k($x, $y)`).Where(m[\"y\"].Type.Implements(`gorules.localNamed`) && !m[\"y\"].Type.Implements(`error`)).Report(`file %d: k with a local interface $y`)\n", id)
+	fmt.Fprintf(&sb, "\tm.Match(`k($x, $y)`).Where(m[\"x\"].Filter(startsWithA)).Report(`file %d: k with string $x`)\n", id)
+	fmt.Fprintf(&sb, "\tm.Match(`k($x, $y)`).Where(!m[\"x\"].Filter(isZeroInt) && (m[\"y\"].Filter(startsWithA) || m[\"y\"].Const)).Do(reportDo)\n")
+	fmt.Fprintf(&sb, "\tm.Match(`k($x, $y)`).Where(m[\"y\"].Type.Is(`error`)).Do(suggestDo)\n")
+	fmt.Fprintf(&sb, "\tm.Match(`k($x, $y)`).Do(reportDo)\n")
+	sb.WriteString("}\n\n")
 	// Rules that accept nodes other files' rules accept too: only the first accepting rule of an engine reports, so the
 	// order in which loads merge their rules is observable whenever two such files meet in one engine.
 	fmt.Fprintf(&sb, "func overlap%d(m dsl.Matcher) {\n", id)
@@ -535,6 +557,7 @@ func (S) m(x int) int    { return x }
 func f(a, b interface{})             {}
 func g(a interface{})                {}
 func h(a, b interface{}, rest ...int) {}
+func k(a, b interface{})             {}
 
 var global = 10
 
@@ -570,6 +593,14 @@ func run(p *int, s string, e error, t chk.T) int {
 		g(0)
 	}
 	fmt.Println(local)
+	k(s, 1)
+	k(s+"x", e)
+	k(local, s)
+	k(int64(local), "const")
+	k(*p, e)
+	k(int8(1), t)
+	k(local, S{})
+	k(s, &S{})
 	cmpOperands(1, 2, 3)
 	return local
 }
@@ -917,7 +948,7 @@ func main() {
 	}
 	// rules files with bundle imports (prefix != package path, empty prefix)
 	bundleSrcs := []string{
-		"package gorules\n\nimport (\n\t\"github.com/quasilyte/go-ruleguard/dsl\"\n\trb1 \"example.com/rb1\"\n)\n\nfunc init() {\n\tdsl.ImportRules(\"pfx\", rb1.Bundle)\n}\n\nfunc local(m dsl.Matcher) {\n\tm.Match(`g($x)`).Report(`local $x`)\n}\n",
+		"package lintbundle\n\nimport (\n\t\"github.com/quasilyte/go-ruleguard/dsl\"\n\trb1 \"example.com/rb1\"\n)\n\nfunc init() {\n\tdsl.ImportRules(\"pfx\", rb1.Bundle)\n}\n\nfunc notConst(ctx *dsl.VarFilterContext) bool {\n\treturn ctx.Type.String() != \"untyped int\"\n}\n\nfunc local(m dsl.Matcher) {\n\tm.Match(`g($x)`).Where(m[\"x\"].Filter(notConst)).Report(`local $x`)\n}\n",
 		"package gorules\n\nimport (\n\t\"github.com/quasilyte/go-ruleguard/dsl\"\n\t\"example.com/rb1\"\n\t\"example.com/rb2\"\n)\n\nfunc init() {\n\tdsl.ImportRules(\"\", rb1.Bundle)\n\tdsl.ImportRules(\"two\", rb2.Bundle)\n}\n",
 	}
 	for i, src := range bundleSrcs {
